@@ -391,6 +391,9 @@ func AppendNumber(_ *RuntimeContext, b []byte, n json.Number) ([]byte, error) {
 			return nil, fmt.Errorf("json: invalid number literal %q", n)
 		}
 	}
+	if !validNumber([]byte(n)) {
+		return nil, fmt.Errorf("json: invalid number literal %q", n)
+	}
 	b = append(b, n...)
 	return b, nil
 }
